@@ -1,16 +1,298 @@
-use simtypes::*;
-fn main() {
+//! blsim — deterministic simulation with fault injection for mikelodder7/blsful.
+//!   blsim check <ID> <quick|thorough> [--child]
+//!   blsim replay <file>
+//!   blsim digest <ID> <tier> <threads>        (per-run verdict/artefact logs, for the determinism proof)
+//!   blsim selftest
+mod driver;
+mod env;
+mod registry;
+mod sc_thresh;
+
+use driver::*;
+use std::collections::BTreeMap;
+
+fn install_panic_hook() {
+    std::panic::set_hook(Box::new(|info| {
+        let loc = info.location().map(|l| format!("{}:{}", l.file(), l.line())).unwrap_or_else(|| "?".into());
+        simtypes::note_panic(loc);
+    }));
+}
+
+fn base_seed() -> u64 {
+    std::env::var("VERIF_SEED").ok().and_then(|s| s.trim().parse::<u64>().ok()).unwrap_or(20_241_004)
+}
+fn threads() -> usize {
+    std::env::var("VERIF_THREADS").ok().and_then(|s| s.parse().ok()).unwrap_or(16).clamp(1, 64)
+}
+fn scale() -> f64 {
+    std::env::var("VERIF_SCALE").ok().and_then(|s| s.parse().ok()).unwrap_or(1.0)
+}
+fn known_path() -> String {
+    std::env::var("VERIF_KNOWN").unwrap_or_else(|_| "/verif/known_findings.json".into())
+}
+fn evidence_dir() -> String {
+    std::env::var("VERIF_EVIDENCE_DIR").unwrap_or_else(|_| "/verif/evidence".into())
+}
+
+fn seam_gate(spec: &registry::PropSpec) {
     let (c, e) = kernel::seams::self_test();
-    println!("seams clock={} entropy={}", c, e);
-    let libs: Vec<&dyn Lib> = vec![&flav_blst::LIB, &flav_rust::LIB, &flav_pinned::LIB];
-    for l in libs {
-        for g in Grp::ALL {
-            let sk = l.call(g, Op::KeyFromHash, &[b"seed"]).ok().unwrap();
-            let pk = l.call(g, Op::PublicKey, &[&sk[0]]).ok().unwrap();
-            let sig = l.call(g, Op::Sign, &[&sk[0], &[0], b"msg"]).ok().unwrap();
-            let v = l.call(g, Op::Verify, &[&sig[0], &pk[0], b"msg"]);
-            println!("{} {:?} sk={} sig={} verify={:?}", l.name(), g, hex(&sk[0]), hex(&sig[0][..8]), v);
+    if (!c && spec.needs_clock) || (!e && spec.needs_entropy) {
+        eprintln!("harness error: seam inactive (clock={}, entropy={}) but required by this check", c, e);
+        std::process::exit(2);
+    }
+    if !c || !e {
+        eprintln!("note: seam inactive (clock={}, entropy={}); replays are verdict-exact only", c, e);
+    }
+}
+
+fn cmd_check(id: &str, tier: Tier, child: bool) -> i32 {
+    let env = env::env();
+    let Some(spec) = registry::spec(id) else {
+        eprintln!("harness error: unknown property {}", id);
+        return 2;
+    };
+    seam_gate(&spec);
+    let known = load_known(&known_path());
+    let cap = std::env::var("VERIF_WALL_CAP_S").ok().and_then(|s| s.parse().ok()).unwrap_or(if tier == Tier::Quick { 240.0 } else { 3000.0 });
+    let start = std::time::Instant::now();
+    let batch = run_batch(id, tier, base_seed(), &spec.classes, &env, threads(), cap, scale());
+    let rep = triage(id, &batch, &spec.classes, &env, &known);
+    let part = summarise(&batch, &spec.classes, &env, &rep, tier);
+    let mut parts = vec![part];
+    let mut child_violation = false;
+    if child {
+        println!("PART-JSON {}", serde_json::to_string(&parts[0]).unwrap());
+        return if rep.new_violations > 0 { 1 } else { 0 };
+    }
+    if spec.also_checked_profile && env.profile == "release" {
+        // the same exploration in a build with debug assertions and overflow checks
+        let exe = std::env::current_exe().unwrap();
+        let checked = exe.to_string_lossy().replace("/release/", "/checked/");
+        if std::path::Path::new(&checked).exists() {
+            let out = std::process::Command::new(&checked).args(["check", id, tier.name(), "--child"]).output();
+            match out {
+                Ok(o) => {
+                    let so = String::from_utf8_lossy(&o.stdout);
+                    for line in so.lines() {
+                        if let Some(j) = line.strip_prefix("PART-JSON ") {
+                            if let Ok(p) = serde_json::from_str::<PartSummary>(j) {
+                                parts.push(p);
+                            }
+                        } else if line.starts_with("KNOWN-FINDING:") {
+                            let already = rep.known_seen.iter().any(|k| line.ends_with(k.as_str()));
+                            if !already {
+                                println!("{}", line);
+                            }
+                        } else {
+                            println!("{}", line);
+                        }
+                    }
+                    match o.status.code() {
+                        Some(0) => {}
+                        Some(1) => child_violation = true,
+                        c => {
+                            eprintln!("harness error: checked-profile child exited with {:?}: {}", c, String::from_utf8_lossy(&o.stderr));
+                            return 2;
+                        }
+                    }
+                }
+                Err(e) => {
+                    eprintln!("harness error: cannot run {}: {}", checked, e);
+                    return 2;
+                }
+            }
+        } else {
+            eprintln!("harness error: checked-profile binary {} missing", checked);
+            return 2;
+        }
+    }
+    let violations = parts.iter().map(|p| p.new_violations).sum::<u64>();
+    write_evidence(id, tier, &spec, &parts, start.elapsed().as_secs_f64(), violations);
+    let runs: u64 = parts.iter().map(|p| p.runs).sum();
+    let evals: u64 = parts.iter().map(|p| p.evaluations).sum();
+    println!(
+        "{} {}: runs={} evaluations={} lib_calls={} wall={:.1}s violations={} known={}{}",
+        id,
+        tier.name(),
+        runs,
+        evals,
+        parts.iter().map(|p| p.lib_calls).sum::<u64>(),
+        start.elapsed().as_secs_f64(),
+        violations,
+        parts.iter().map(|p| p.known_seen.len()).sum::<usize>(),
+        if parts.iter().any(|p| p.truncated) { " (TRUNCATED by wall cap)" } else { "" }
+    );
+    if violations > 0 || child_violation {
+        1
+    } else {
+        0
+    }
+}
+
+fn write_evidence(id: &str, tier: Tier, spec: &registry::PropSpec, parts: &[PartSummary], wall_s: f64, violations: u64) {
+    use std::collections::HashSet;
+    let mut all: HashSet<u64> = HashSet::new();
+    let mut nt: HashSet<u64> = HashSet::new();
+    let mut faults: BTreeMap<String, u64> = BTreeMap::new();
+    let mut probes: BTreeMap<String, u64> = BTreeMap::new();
+    let mut per_class: BTreeMap<String, u64> = BTreeMap::new();
+    let mut samples = vec![];
+    let mut known = vec![];
+    let mut notes = vec![];
+    let mut exhaustive = vec![];
+    for p in parts {
+        all.extend(p.distinct_cases.iter());
+        nt.extend(p.nontrivial_cases.iter());
+        for (k, v) in &p.faults {
+            *faults.entry(k.clone()).or_insert(0) += v;
+        }
+        for (k, v) in &p.probes {
+            *probes.entry(k.clone()).or_insert(0) += v;
+        }
+        for (k, v) in &p.per_class {
+            *per_class.entry(format!("{}:{}", p.profile, k)).or_insert(0) += v;
+        }
+        if samples.len() < 5 {
+            samples.extend(p.samples.iter().take(3).cloned());
+        }
+        for k in &p.known_seen {
+            if !known.contains(k) {
+                known.push(k.clone());
+            }
+        }
+        for n in &p.notes {
+            if notes.len() < 8 {
+                notes.push(format!("[{}] {}", p.profile, n));
+            }
+        }
+        for c in &p.exhaustive_classes {
+            if !exhaustive.contains(c) {
+                exhaustive.push(c.clone());
+            }
+        }
+    }
+    let runs: u64 = parts.iter().map(|p| p.runs).sum();
+    let (c_ok, e_ok) = kernel::seams::self_test();
+    let ev = serde_json::json!({
+        "property_id": id,
+        "tier": tier.name(),
+        "seed": base_seed(),
+        "level": "exploration",
+        "coverage": {
+            "evaluations": parts.iter().map(|p| p.evaluations).sum::<u64>(),
+            "distinct_nontrivial": nt.len(),
+            "distinct_cases": all.len(),
+            "rule": spec.rule,
+            "samples": samples,
+            "exhaustive": false,
+            "exhaustive_subspaces": exhaustive,
+            "runs": runs,
+            "runs_per_class": per_class,
+            "runs_per_hour": if wall_s > 0.0 { (runs as f64 / wall_s * 3600.0) as u64 } else { 0 },
+            "sim_time_s": parts.iter().map(|p| p.sim_time_s).sum::<f64>(),
+            "events": parts.iter().map(|p| p.events).sum::<u64>(),
+            "library_calls": parts.iter().map(|p| p.lib_calls).sum::<u64>(),
+            "faults_fired": faults,
+            "probes": probes,
+            "distinct_schedules": parts.iter().map(|p| p.distinct_schedules).sum::<u64>(),
+            "profiles": parts.iter().map(|p| p.profile.clone()).collect::<Vec<_>>(),
+            "truncated_by_wall_cap": parts.iter().any(|p| p.truncated),
+            "jobs_planned": parts.iter().map(|p| p.jobs_total).sum::<u64>(),
+            "seams": {"clock": c_ok, "entropy": e_ok},
+            "components": {
+                "real": ["blsful (/repo working tree) behind the byte-level facade", "vsss-rs", "blstrs_plus + blst (C/asm)", "bls12_381_plus", "serde_bare", "serde_json", "hkdf", "sha2", "sha3", "merlin", "uint-zigzag", "rand_chacha"],
+                "stub": ["party state machines", "transport", "disks", "per-node clocks", "entropy device", "scheduler", "reference implementation `ref` (oracle)"]
+            },
+            "flavours": spec.flavours,
+            "known_findings_seen": known,
+            "unwinds_noted_outside_this_property": parts.iter().map(|p| p.panics_noted).sum::<u64>(),
+            "notes": notes,
+        },
+        "assumptions": spec.assumptions,
+        "wall_s": wall_s,
+        "violations": violations,
+    });
+    let dir = evidence_dir();
+    let _ = std::fs::create_dir_all(&dir);
+    let path = format!("{}/{}.json", dir, id);
+    if let Err(e) = std::fs::write(&path, serde_json::to_string_pretty(&ev).unwrap()) {
+        eprintln!("harness error: cannot write {}: {}", path, e);
+        std::process::exit(2);
+    }
+}
+
+fn cmd_replay(path: &str) -> i32 {
+    let env = env::env();
+    let Ok(s) = std::fs::read_to_string(path) else {
+        eprintln!("harness error: cannot read {}", path);
+        return 2;
+    };
+    let Ok(rf) = serde_json::from_str::<kernel::plan::ReplayFile>(&s) else {
+        eprintln!("harness error: cannot parse {}", path);
+        return 2;
+    };
+    if rf.profile != env.profile {
+        let exe = std::env::current_exe().unwrap();
+        let other = exe.to_string_lossy().replace(&format!("/{}/", env.profile), &format!("/{}/", rf.profile));
+        if other != exe.to_string_lossy() && std::path::Path::new(&other).exists() {
+            let st = std::process::Command::new(other).args(["replay", path]).status();
+            return st.ok().and_then(|s| s.code()).unwrap_or(2);
+        }
+    }
+    let Some(spec) = registry::spec(&rf.plan.property) else { return 2 };
+    let Some(sc) = spec.classes.iter().map(|c| c.scenario).find(|s| s.name() == rf.plan.scenario) else {
+        eprintln!("harness error: scenario {} not registered for {}", rf.plan.scenario, rf.plan.property);
+        return 2;
+    };
+    let rec = execute(sc, &rf.plan, &env);
+    let hit = rec.violations.iter().find(|v| v.property == rf.expect.property && v.invariant == rf.expect.invariant);
+    match hit {
+        Some(v) => {
+            println!("REPRODUCED property={} invariant={} at={} detail={}", v.property, v.invariant, v.at, v.detail);
+            if v.detail != rf.expect.detail {
+                println!("  (detail differs from the recorded one: {})", rf.expect.detail);
+            }
+            println!("VIOLATION property={} replay={}", v.property, path);
+            1
+        }
+        None => {
+            println!("not reproduced: the plan runs clean on this tree ({} evaluations, {} other violations)", rec.evals, rec.violations.len());
+            0
         }
     }
 }
-fn hex(b: &[u8]) -> String { b.iter().map(|x| format!("{:02x}", x)).collect() }
+
+fn cmd_digest(id: &str, tier: Tier, nthreads: usize) -> i32 {
+    let env = env::env();
+    let Some(spec) = registry::spec(id) else { return 2 };
+    let batch = run_batch(id, tier, base_seed(), &spec.classes, &env, nthreads, 600.0, scale());
+    for s in &batch.summaries {
+        println!("{} {} {:016x} {:016x} {:016x} {}", s.class_idx, s.seed, s.verdict_log, s.artefact_log, s.schedule, s.evals);
+    }
+    0
+}
+
+fn main() {
+    install_panic_hook();
+    let args: Vec<String> = std::env::args().collect();
+    let tier_of = |s: &str| if s == "thorough" { Tier::Thorough } else { Tier::Quick };
+    let code = match args.get(1).map(|s| s.as_str()) {
+        Some("check") if args.len() >= 4 => cmd_check(&args[2], tier_of(&args[3]), args.iter().any(|a| a == "--child")),
+        Some("replay") if args.len() >= 3 => cmd_replay(&args[2]),
+        Some("digest") if args.len() >= 5 => cmd_digest(&args[2], tier_of(&args[3]), args[4].parse().unwrap_or(1)),
+        Some("selftest") => {
+            let (c, e) = kernel::seams::self_test();
+            println!("seams clock={} entropy={} profile={}", c, e, env::env().profile);
+            if c && e {
+                0
+            } else {
+                2
+            }
+        }
+        _ => {
+            eprintln!("usage: blsim check <ID> <quick|thorough> | replay <file> | digest <ID> <tier> <threads> | selftest");
+            2
+        }
+    };
+    std::process::exit(code);
+}
